@@ -143,6 +143,7 @@ pub fn run_pool(w: &mut dyn WorldApi, g: &mut Gen, ev: &mut Ev, is_set: bool, re
     for a in &members {
         for b in &members {
             let expect = a.m.entries() == b.m.entries();
+            beat("check/eq");
             let (e, ne) = w.eq(a.slot, b.slot);
             ev.evaluations += 1;
             let la = a.m.len();
